@@ -68,7 +68,7 @@ Definition dump_ok (s : state) (dump : list odir) : bool :=
   let E := ext_of sz (start_of dump) s in
   let ph := phys E s in
   (length ph =? length dump)%nat &&
-  forallb (fun d => (E (od_path d) =? od_ext d) &&
+  forallb (fun d => (1 <=? od_blocks d) && (E (od_path d) =? od_ext d) &&
                     match find_phys ph (od_path d) with
                     | Some recs => orecs_eqb (map rec_tuple recs) (od_recs d)
                     | None => false
